@@ -1,5 +1,5 @@
 (** * Navigation links of a generated site: targets exist, every page is reachable (C14 site level). *)
-From Coq Require Import List NArith Bool Arith Lia String Permutation Relations.
+From Coq Require Import List NArith Bool Arith Lia String Permutation Relations Sorted.
 From RG Require Import Base.Str Base.Dec Model.Url Model.Href Model.Fs Model.Site Spec.SiteSpec
   Proofs.FsTree Proofs.SiteLinks Proofs.SiteHeap Proofs.SiteSort Proofs.SiteBuild Proofs.SiteAssets Proofs.SitePages.
 Import ListNotations.
@@ -724,3 +724,155 @@ Proof.
 Qed.
 
 End NavTargets.
+
+(** ** Category and recipe lists are in title order (C15) *)
+
+Definition by_title (a b : str * str) : Prop := str_leb (fst a) (fst b) = true.
+
+Lemma sorted_titles {A} (key : A -> str * str) (g : A -> str * str) l :
+  (forall x, In x l -> fst (g x) = fst (key x)) -> Sorted (key_le key) l -> Sorted by_title (map g l).
+Proof.
+  intros Hg Hs. induction Hs as [|x l Hs IH Hhd]; [constructor|]. simpl. constructor.
+  - apply IH. intros y Hy. apply Hg. right. exact Hy.
+  - destruct Hhd as [|y l' Hxy]; [constructor|]. simpl. constructor. unfold by_title.
+    rewrite (Hg x (or_introl eq_refl)), (Hg y (or_intror (or_introl eq_refl))). apply (key_le_title key). exact Hxy.
+Qed.
+
+Section Sorted.
+Variable E : env.
+
+(** every page of [expected] carries the document's title *)
+Lemma expected_title mes src data j m k p :
+  expected E mes src data j = Some m -> In (k, p) m ->
+  exists doc, compile_recipe E data true false = Ok doc /\ d_title doc = Some (rp_title p).
+Proof.
+  unfold expected. destruct j as [|j]; [discriminate|].
+  destruct (compile_recipe E data true false) as [doc|e]; [|discriminate].
+  destruct (d_title doc) as [title|] eqn:Ht; [|discriminate].
+  destruct (d_servings doc) as [nv|].
+  - destruct (nv =? 0); [discriminate|]. intros Hm Hin.
+    match type of Hm with Some (map ?f ?l) = _ => assert (Hmm : m = map f l) by (inversion Hm; reflexivity) end.
+    rewrite Hmm in Hin. apply in_map_iff in Hin as (i & Heq & _).
+    assert (Hp : p = mk_page title (mes (Some i)) (Some i) (Some nv) src doc (mk_factor i nv)) by (inversion Heq; reflexivity).
+    subst p. exists doc. split; [reflexivity | exact Ht].
+  - intros Hm Hin. assert (Hmm : m = [(None, mk_page title (mes (Some 1)) None None src doc factor_one)]) by (inversion Hm; reflexivity).
+    rewrite Hmm in Hin. destruct Hin as [Heq|[]].
+    assert (Hp : p = mk_page title (mes (Some 1)) None None src doc factor_one) by (inversion Heq; reflexivity).
+    subst p. exists doc. split; [reflexivity | exact Ht].
+Qed.
+
+Lemma expected_final_title mes src data j m k p :
+  expected_final E mes src data j = Some m -> In (k, p) m ->
+  exists doc, compile_recipe E data true false = Ok doc /\ d_title doc = Some (rp_title p).
+Proof.
+  unfold expected_final. destruct (expected E mes src data j) as [m0|] eqn:He; [|discriminate].
+  intros Hm Hin.
+  assert (Hcase : m = m0 \/ exists p0, m0 = [(None, p0)] /\ m = [(None, set_parent p0 (mes None))]).
+  { destruct m0 as [|[[k0|] p0] [|x r]]; try (left; inversion Hm; reflexivity).
+    right. exists p0. split; [reflexivity | inversion Hm; reflexivity]. }
+  destruct Hcase as [->|(p0 & -> & ->)].
+  - eapply expected_title; eassumption.
+  - destruct Hin as [Heq|[]]. assert (Hp : p = set_parent p0 (mes None)) by (inversion Heq; reflexivity). subst p.
+    destruct (expected_title mes src data j _ None p0 He (or_introl eq_refl)) as (doc & H1 & H2).
+    exists doc. split; [exact H1 | exact H2].
+Qed.
+
+Lemma cat_lists_sorted : forall t j sv dp P is_root c,
+  pure_dir E j sv t dp P is_root = Ok c ->
+  forall c', In (PCat c') (cat_pages c) ->
+    Sorted (key_le cpage_key) (cp_subs c') /\ Sorted (key_le rref_key) (cp_recipes c').
+Proof.
+  induction t as [nm d|nm|nm rn es IHes] using stree_ind'; intros j sv dp P is_root c Hp c' Hc'; try discriminate.
+  rewrite pure_dir_eq in Hp. destruct (enumerate E dp rn es) as [l|e]; [|discriminate]. cbn [bind] in Hp. cbv zeta in Hp.
+  set (mes0 := dir_mes P dp (l_title l) is_root) in *.
+  destruct (psubs (fun e p => pure_dir E j sv e p mes0 false) dp es) as [cs|e] eqn:Hcs; [|discriminate]. cbn [bind] in Hp.
+  destruct (pure_refs E sv j dp mes0 (l_recipes l)) as [refs|e]; [|discriminate]. cbn [bind] in Hp. inversion Hp; subst c. clear Hp.
+  unfold dir_page in Hc'. cbn [cat_pages] in Hc'. destruct Hc' as [Heq|Hc'].
+  - inversion Heq; subst c'. cbn [cp_subs cp_recipes]. split; apply sort_by_sorted.
+  - apply in_app_or in Hc' as [Hc'|Hc'].
+    + apply in_flat_map in Hc' as (sc & Hsc & Hc'). apply in_sort_by in Hsc.
+      apply (psubs_in _ dp es cs Hcs) in Hsc as (dn & drn & des & Hine & Hpe).
+      rewrite Forall_forall in IHes. eapply IHes; eassumption.
+    + destruct sv; [|contradiction]. apply in_map_iff in Hc' as (r & Heq & _). discriminate.
+Qed.
+
+Lemma unscaled_lookup_in m0 m native p0 : unscaled_lookup m0 = Ok (m, native, p0) -> m0 = Some m /\ In (native, p0) m.
+Proof.
+  unfold unscaled_lookup. destruct m0 as [m1|]; [|discriminate].
+  destruct (match sc_get (Some 1) m1 with Some p => Some p | None => sc_get None m1 end) as [q|]; [|discriminate].
+  destruct (sc_get (rp_native q) m1) as [p|] eqn:Hg; [|discriminate]. intro H. inversion H; subst.
+  split; [reflexivity|]. apply sc_get_in. exact Hg.
+Qed.
+
+(** Site level: the sub-category list and the recipe list of every written page are in
+    non-decreasing (code point) order of the titles shown. *)
+Theorem site_lists_sorted fs input M files root t :
+  generate_static_site E fs input M = Ok files ->
+  realpath fs input = ROk root -> view_root fs root = Some t -> uniq_names t ->
+  forall f po, In (f, CPageOut po) files -> Sorted by_title (po_cats po) /\ Sorted by_title (po_recs po).
+Proof.
+  intros Hgen Hroot Hview Hu f po Hf.
+  unfold generate_static_site in Hgen. rewrite Hroot, Hview in Hgen.
+  destruct (from_root_directory E t root M) as [[hm h]|e] eqn:Hb; [|discriminate]. cbn [bind] in Hgen.
+  pose proof (from_root_directory_pure E t root M Hu) as Hpure.
+  destruct (pure_root E t root M) as [hm'|e] eqn:Hp; [|rewrite Hb in Hpure; discriminate].
+  destruct Hpure as (h0 & Hb0 & Hfin). rewrite Hb in Hb0. inversion Hb0; subst hm' h0. clear Hb0.
+  unfold write_site in Hgen.
+  destruct (render_all fs hm h (source_lookup hm h) (all_pages hm) []) as [[pages a]|e] eqn:Hra; [|discriminate].
+  cbn [bind] in Hgen. destruct (copy_assets fs a) as [copies|e] eqn:Hca; [|discriminate]. cbn [bind] in Hgen.
+  apply write_all_ok in Hgen.
+  assert (Hq : In (f, po) pages).
+  { rewrite Hgen in Hf. apply in_app_or in Hf as [Hf|Hf].
+    - apply in_map_iff in Hf as ([g q] & Heq & Hin). inversion Heq; subst g q. exact Hin.
+    - apply in_app_or in Hf as [[Heq|[]]|Hf]; [discriminate|].
+      destruct (copy_assets_only _ _ _ _ _ Hca Hf) as (src & data & Hc). discriminate. }
+  destruct (render_all_inv _ _ _ _ _ _ _ _ Hra f po Hq) as (pr & a0 & a1 & Hpr & Hfpr & Hrender).
+  destruct pr as [|c|r].
+  - apply render_home_links in Hrender as (_ & _ & Hc & Hr & _). rewrite Hc, Hr. split; constructor.
+  - unfold pure_root in Hp. destruct t as [nm d|nm|nm rn es]; try discriminate.
+    unfold final_heap_ok in Hfin.
+    destruct (enumerate E root rn es) as [l|e] eqn:Hen; [|discriminate]. cbn [bind] in Hp.
+    set (P := fun _ : option N => [(l_title l, home_path)]) in *.
+    destruct (pure_scaled E (SDir nm rn es) root P 0 (N.to_nat M)) as [sc|e] eqn:Hsc; [|discriminate].
+    cbn [bind] in Hp. destruct (pure_dir E (N.to_nat M) None (SDir nm rn es) root P true) as [un|e] eqn:Hun; [|discriminate].
+    cbn [bind] in Hp. inversion Hp; subst hm. clear Hp.
+    set (T := SDir nm rn es) in *.
+    apply render_cat_links in Hrender as (_ & Hcats & Hrecs & Hall & _).
+    (* the top this category page belongs to *)
+    assert (Htop : exists j sv ctop, pure_dir E j sv T root P true = Ok ctop /\ In (PCat c) (cat_pages ctop) /\
+              match sv with Some i => i = N.of_nat (S j) | None => j = N.to_nat M end).
+    { unfold all_pages in Hpr. cbn [h_scaled h_unscaled] in Hpr. destruct Hpr as [Heq|Hpr]; [discriminate|].
+      apply in_app_or in Hpr as [Hpr|Hpr].
+      - apply in_flat_map in Hpr as ([n c0] & Hnc & Hin). cbn [snd] in Hin.
+        apply (pure_scaled_in E _ _ _ _ _ _ Hsc) in Hnc as (k & Hk & Hn & Hpd). cbn [fst snd] in *.
+        exists k, (Some n), c0. rewrite Hn. auto.
+      - exists (N.to_nat M), None, un. auto. }
+    destruct Htop as (j & sv & ctop & Hpd & Hinc & Hsv).
+    destruct (cat_lists_sorted T j sv root P true ctop Hpd c Hinc) as [Hs1 Hs2].
+    split.
+    + rewrite Hcats. apply (sorted_titles cpage_key); [|exact Hs1]. intros x _. reflexivity.
+    + rewrite Hrecs. apply (sorted_titles rref_key); [|exact Hs2].
+      intros r Hr. destruct (Hall r Hr) as [p Hd]. rewrite Hd. cbn [fst rref_key].
+      destruct sv as [i|].
+      * destruct (cat_pages_recs_inv E T j i root P true ctop Hpd Hsv c r Hinc Hr)
+          as (dp' & nd & doc & title & mes & Hin & Hc & Ht & _ & Hreq & _).
+        unfold deref in Hd. rewrite Hreq in Hd |- *. unfold scaled_ref in Hd |- *. cbn [rr_source rr_key rr_title] in *.
+        destruct (heap_get (dp' ++ [fst nd]) h) as [m|] eqn:Hm; [|discriminate].
+        apply sc_get_in in Hd. rewrite (Hfin _ _ _ Hin) in Hm.
+        destruct (expected_final_title _ _ _ _ _ _ _ Hm Hd) as (doc' & Hc' & Ht').
+        rewrite Hc in Hc'. inversion Hc'; subst doc'. rewrite Ht in Ht'. inversion Ht'. reflexivity.
+      * subst j.
+        destruct (cat_pages_unscaled_recs_inv E T (N.to_nat M) root P true ctop Hpd c r Hinc Hr)
+          as (src & data & mes & m0 & native & p0 & Hin & Hl & Hreq).
+        apply unscaled_lookup_in in Hl as [He Hp0].
+        destruct (expected_title _ _ _ _ _ _ _ He Hp0) as (doc & Hc & Ht).
+        unfold deref in Hd. rewrite Hreq in Hd |- *. unfold unscaled_ref in Hd |- *. cbn [rr_source rr_key rr_title] in *.
+        destruct (heap_get src h) as [m|] eqn:Hm; [|discriminate].
+        apply sc_get_in in Hd. rewrite (Hfin _ _ _ Hin) in Hm.
+        destruct (expected_final_title _ _ _ _ _ _ _ Hm Hd) as (doc' & Hc' & Ht').
+        rewrite Hc in Hc'. inversion Hc'; subst doc'. rewrite Ht in Ht'. inversion Ht'. reflexivity.
+  - destruct Hrender as (p & Hd & Hrender).
+    apply render_recipe_links in Hrender as (_ & Hc & Hr & _). rewrite Hc, Hr. split; constructor.
+Qed.
+
+End Sorted.
